@@ -12,6 +12,7 @@
      "next"  : one __next__ call on a reader over the current file:
                out = "rec" (bytes = record) | "stop" | "liberr" (n = record_number or -1, bytes = context data)
                      | "exc" | "hang"
+     "rewind": the same reader has been rewound (seek(0), unblocked readers only) and is read again from the start
    strict: a record that cannot be framed must raise (C07/C10); otherwise it may also just end (C09).
    loc   : also judge record_number / binary_context_data of a library error (C10). *)
 EXTENDS TraceBatch, Vbs
@@ -34,6 +35,8 @@ EvFile  == /\ Ev.op = "file"
 EvGiven == Ev.op = "given" /\ cur' = Ev.bytes /\ orig' = Ev.bytes /\ rpos' = 0 /\ ryield' = 0 /\ Go /\ UNCHANGED <<wrecs, nfin>>
 EvCut   == Ev.op = "cut" /\ cur' = SubSeq(orig, 1, Ev.n) /\ rpos' = 0 /\ ryield' = 0 /\ Go /\ UNCHANGED <<wrecs, nfin, orig>>
 
+EvRewind == Ev.op = "rewind" /\ rpos' = 0 /\ Go /\ UNCHANGED <<wrecs, nfin, orig, cur, ryield>>
+
 EvNext ==
     /\ Ev.op = "next"
     /\ LET stream == StreamOf(Tr.blk, cur)
@@ -51,7 +54,7 @@ EvNext ==
                 /\ ryield' = IF Ev.out = "rec" THEN ryield + 1 ELSE ryield
                 /\ Go /\ UNCHANGED <<wrecs, nfin, orig, cur>>
 
-Step == tid <= NTr /\ l <= Len(Tr.events) /\ (EvWrite \/ EvFin \/ EvFile \/ EvGiven \/ EvCut \/ EvNext)
+Step == tid <= NTr /\ l <= Len(Tr.events) /\ (EvWrite \/ EvFin \/ EvFile \/ EvGiven \/ EvCut \/ EvRewind \/ EvNext)
 TNext == EndOfTrace \/ Step
 TSpec == TInit /\ [][TNext]_tvars
 =============================================================================
